@@ -857,7 +857,11 @@ def parse_page_selectors(rule):
                         nth = function.arguments
                         group = None
 
-                    nth_values = tinycss2.nth.parse_nth(nth)
+                    try:
+                        nth_values = tinycss2.nth.parse_nth(nth)
+                    except (AttributeError, ValueError):
+                        # tinycss2 raises on some malformed an+b values
+                        return None
                     if nth_values is None:
                         return None
 
